@@ -32,6 +32,9 @@ func run(c *hlib.Ctx) {
 	runTrees(c)
 	runStack(c)
 	runRectSet(c)
+	// appended last so that the PRNG stream of the kinds above is unchanged
+	runSmoothParallel(c)
+	runSmoothGeom(c)
 }
 
 func b2s(b bool) string {
